@@ -149,3 +149,68 @@ Proof.
   - apply ssorted_b_sound. intros a b H. apply negb_true_iff in H. exact H.
   - apply ssorted_b_complete. intros a b H. rewrite H. reflexivity.
 Qed.
+
+(* ---- repeated ORDER BY keys after the repair: the rebuilt configuration (first occurrences, written order) compares
+   any two rows exactly as the written key list does --------------------------------------------------------------- *)
+Definition kcmp (k : skey) (a b : row) : comparison :=
+  dir_cmp (k_desc k) (opt_cell_cmp (rget a (k_b k)) (rget b (k_b k))).
+
+Lemma key_cmp_cons : forall k ks a b, key_cmp (k :: ks) a b = lex_cmp (kcmp k a b) (key_cmp ks a b).
+Proof. reflexivity. Qed.
+
+Lemma lex_cmp_assoc : forall x y z, lex_cmp (lex_cmp x y) z = lex_cmp x (lex_cmp y z).
+Proof. intros [] y z; reflexivity. Qed.
+Lemma lex_cmp_eq_r : forall x, lex_cmp x Eq = x.
+Proof. intros []; reflexivity. Qed.
+
+Lemma key_cmp_app : forall p q a b, key_cmp (p ++ q) a b = lex_cmp (key_cmp p a b) (key_cmp q a b).
+Proof.
+  induction p as [|k p IH]; intros q a b; [reflexivity|].
+  cbn [app]. rewrite !key_cmp_cons, IH, lex_cmp_assoc. reflexivity.
+Qed.
+
+Lemma key_cmp_absorb : forall seen k a b, seen_dir seen (k_b k) = Some (k_desc k) ->
+  lex_cmp (key_cmp seen a b) (kcmp k a b) = key_cmp seen a b.
+Proof.
+  induction seen as [|s seen IH]; intros k a b H; [discriminate|].
+  cbn [seen_dir] in H. rewrite key_cmp_cons, lex_cmp_assoc.
+  destruct (N.eqb (k_b s) (k_b k)) eqn:E.
+  - apply N.eqb_eq in E. injection H as H.
+    assert (K : kcmp k a b = kcmp s a b) by (unfold kcmp; rewrite E, H; reflexivity).
+    destruct (kcmp s a b) eqn:Ks; cbn [lex_cmp]; try reflexivity.
+    (* the first key already says Eq: the repeated key says Eq too *)
+    destruct (seen_dir seen (k_b k)) eqn:Sd.
+    + destruct (Bool.eqb b0 (k_desc k)) eqn:Bd.
+      * apply eqb_prop in Bd. subst b0. apply IH. exact Sd.
+      * rewrite K. rewrite lex_cmp_eq_r. reflexivity.
+    + rewrite K, lex_cmp_eq_r. reflexivity.
+  - destruct (kcmp s a b); cbn [lex_cmp]; try reflexivity. apply IH. exact H.
+Qed.
+
+Lemma checker_loop_cmp : forall outs keys seen dups seen' dups',
+  checker_loop outs keys seen dups = inr (seen', dups') ->
+  forall p, (forall a b, key_cmp p a b = key_cmp seen a b) ->
+  forall a b, key_cmp (p ++ keys) a b = key_cmp seen' a b.
+Proof.
+  intros outs. induction keys as [|k rest IH]; intros seen dups seen' dups' H p Hp a b.
+  - cbn in H. injection H as <- _. rewrite app_nil_r. apply Hp.
+  - cbn [checker_loop] in H.
+    replace (p ++ k :: rest) with ((p ++ [k]) ++ rest) by (rewrite <- app_assoc; reflexivity).
+    destruct (seen_dir seen (k_b k)) as [d|] eqn:Sd.
+    + destruct (Bool.eqb d (k_desc k)) eqn:Bd; cbn [negb] in H; [|discriminate].
+      apply eqb_prop in Bd. subst d.
+      destruct (existsb (N.eqb (k_b k)) outs); [|discriminate].
+      eapply IH; [exact H|]. intros a' b'. rewrite key_cmp_app, Hp. cbn [key_cmp].
+      rewrite lex_cmp_eq_r. apply key_cmp_absorb. exact Sd.
+    + destruct (existsb (N.eqb (k_b k)) outs); [|discriminate].
+      eapply IH; [exact H|]. intros a' b'. rewrite !key_cmp_app, Hp. reflexivity.
+Qed.
+
+Theorem order_by_checker_same_order : forall outs keys cfg,
+  order_by_checker (fun l => l) outs keys = inr cfg -> forall a b, key_cmp cfg a b = key_cmp keys a b.
+Proof.
+  intros outs keys cfg H a b. unfold order_by_checker in H.
+  destruct (checker_loop outs keys [] false) as [e|[seen dups]] eqn:C; [discriminate|].
+  injection H as <-. destruct dups; [|reflexivity].
+  symmetry. apply (checker_loop_cmp outs keys [] false seen true C [] (fun _ _ => eq_refl)).
+Qed.
